@@ -55,6 +55,28 @@ Theorem C01_vocabulary_address_free_partial : forall t rest,
   In t (all_known_names ++ OPERATORS ++ LOGS ++ TCP_FLAGS) -> addr_loose false (t :: rest) = None.
 Proof. exact known_word_no_dst. Qed.
 
+(** whitespace: the parser sees the token list only ([C01_tokens]); the token list is the same
+    when whitespace characters (blank, tab, ...) are doubled, exchanged for one another, or added
+    at either end of the line.  Every spacing of a line is reached from the single-blank spelling
+    by such steps, so meaning and re-rendered text do not depend on the spacing. *)
+Theorem C01_tokens : forall c l1 l2,
+  split_ws l1 = split_ws l2 -> parse_ace_text c l1 = parse_ace_text c l2.
+Proof. exact parse_depends_on_tokens. Qed.
+
+Theorem C01_ws_double : forall a c c' b, is_ws c = true -> is_ws c' = true ->
+  split_ws (a ++ String c (String c' b)) = split_ws (a ++ String c b).
+Proof. exact ws_double. Qed.
+
+Theorem C01_ws_exchange : forall a c c' b, is_ws c = true -> is_ws c' = true ->
+  split_ws (a ++ String c b) = split_ws (a ++ String c' b).
+Proof. exact ws_exchange. Qed.
+
+Theorem C01_ws_leading : forall c b, is_ws c = true -> split_ws (String c b) = split_ws b.
+Proof. exact ws_leading. Qed.
+
+Theorem C01_ws_trailing : forall a c, is_ws c = true -> split_ws (a ++ String c "") = split_ws a.
+Proof. exact ws_trailing. Qed.
+
 (** non-vacuity: a full line through the modelled splitter, in two spellings and layouts *)
 Example C01_nonvacuous :
   exists t1 t2,
